@@ -225,6 +225,15 @@ func cmdGen(args []string) {
 
 func main() {
 	debug.SetGCPercent(100)
+	if os.Getenv("VERIF_GCSTRESS") != "" {
+		// force collections concurrently with the operations
+		go func() {
+			for {
+				runtime.GC()
+				runtime.Gosched()
+			}
+		}()
+	}
 	if len(os.Args) < 2 {
 		fmt.Fprintln(os.Stderr, "usage: harness <run|gen|...> [flags]")
 		os.Exit(2)
